@@ -797,6 +797,20 @@ func ruleQuoteAlphabet(p *Prog, r *Report) {
 						if guardedAgainstQuote(u, ld) {
 							continue
 						}
+						// a helper of the package that itself only walks, indexes or
+						// slices the string: its pieces are what the evaluation judges
+						if sc := u.Common().StaticCallee(); sc != nil && InModule(sc) && len(sc.Blocks) > 0 {
+							pieces := true
+							for ai, a := range u.Common().Args {
+								if a == ssa.Value(ld) && (ai >= len(sc.Params) || !onlyWalked(sc.Params[ai], 0)) {
+									pieces = false
+								}
+							}
+							if pieces {
+								leaks = append(leaks, "indexed or sliced inside "+FnName(sc)+" at "+p.Pos(u.Pos()))
+								continue
+							}
+						}
 						leaks = append(leaks, "passed to "+u.Common().Value.Name()+" at "+p.Pos(u.Pos()))
 					case *ssa.MakeInterface:
 						if guardedAgainstQuote(u, ld) {
@@ -1034,7 +1048,7 @@ func asciiPrintsReadable(p *Prog, fn *ssa.Function) (detail string, decided, goo
 // expression (a piece of it), never the value as a whole.
 func onlyIndexedOrSliced(leaks []string) bool {
 	for _, l := range leaks {
-		if !strings.HasPrefix(l, "used by *ssa.Index") && !strings.HasPrefix(l, "used by *ssa.Slice") {
+		if !strings.HasPrefix(l, "used by *ssa.Index") && !strings.HasPrefix(l, "used by *ssa.Slice") && !strings.HasPrefix(l, "indexed or sliced inside ") {
 			return false
 		}
 	}
@@ -1096,5 +1110,44 @@ func boundsFlowByEvaluation(p *Prog, r *Report, rule, key string, fn *ssa.Functi
 		return true
 	}
 	r.ok(rule, key, p.Pos(fn.Pos()), fmt.Sprintf("the item parser evaluated on %d items with a size declaration: an ASCII variable gets (lower, upper) as written, and an item is diagnosed exactly when its size lies outside the declared bounds (both ends, open ends, lists, binary and numeric items)", len(samples)))
+	return true
+}
+
+// onlyWalked: the string value is only ranged over, indexed, sliced, measured
+// or compared (also inside module helpers it is handed to, two levels).
+func onlyWalked(v ssa.Value, depth int) bool {
+	refs := v.Referrers()
+	if refs == nil {
+		return true
+	}
+	for _, ref := range *refs {
+		switch u := ref.(type) {
+		case *ssa.Range, *ssa.DebugRef, *ssa.Lookup, *ssa.Slice:
+		case *ssa.Index:
+		case *ssa.BinOp:
+			if u.Op != token.EQL && u.Op != token.NEQ && u.Op != token.LSS && u.Op != token.GTR && u.Op != token.LEQ && u.Op != token.GEQ {
+				return false
+			}
+		case *ssa.Phi:
+			if !onlyWalked(u, depth) {
+				return false
+			}
+		case *ssa.Call:
+			if bi, ok := u.Common().Value.(*ssa.Builtin); ok && bi.Name() == "len" {
+				continue
+			}
+			sc := u.Common().StaticCallee()
+			if sc == nil || !InModule(sc) || len(sc.Blocks) == 0 || depth >= 2 {
+				return false
+			}
+			for ai, a := range u.Common().Args {
+				if a == v && (ai >= len(sc.Params) || !onlyWalked(sc.Params[ai], depth+1)) {
+					return false
+				}
+			}
+		default:
+			return false
+		}
+	}
 	return true
 }
